@@ -206,6 +206,18 @@ func Main(t *testing.T, e Engine) {
 		if r.Fail != nil {
 			fmt.Printf("  %s\n", r.Fail.Msg)
 		}
+		if n := os.Getenv("VERIF_LOGHEAD"); n != "" {
+			var k int
+			fmt.Sscan(n, &k)
+			all := fmtLog(r.Log, 1<<30)
+			if k < len(all) {
+				all = all[:k]
+			}
+			for _, l := range all {
+				fmt.Println("  ", l)
+			}
+			return
+		}
 		for _, l := range fmtLog(r.Log, 200) {
 			fmt.Println("  ", l)
 		}
